@@ -5,7 +5,7 @@
 (* because the documentation leaves ties between equally long patterns open), the real Parser must return one.     *)
 (* A document: apps (sequence of [pat, key, a (attributes), progs (sequence of [pat, key, ref, a])]), models         *)
 (* (sequence of [key, ref, a]), aliases (sequence of [name, ids]); names / patterns / references are sequences of    *)
-(* characters, patterns are plain substrings (regular expression operators are out of scope). An attribute is        *)
+(* characters; patterns are fixed-length: characters, '.', optional ^ and $ (quantifiers are out of scope). An attribute is        *)
 (* [s |-> set?, k |-> "int" | "junk" | "tok", v |-> integer, t |-> token].                                           *)
 EXTENDS Naturals, Integers, Sequences, FiniteSets, TLC, Json, IOUtils
 
@@ -18,8 +18,13 @@ Distribution == {"ALL_INSTANCES", "SINGLE_INSTANCE", "SINGLE_NODE"}
 TrueTok == {"y", "yes", "t", "true", "on", "1"}
 FalseTok == {"n", "no", "f", "false", "off", "0"}
 
-IsSub(pat, name) == /\ Len(pat) > 0 /\ Len(pat) <= Len(name)
-                    /\ \E i \in 1..(Len(name) - Len(pat) + 1) : SubSeq(name, i, i + Len(pat) - 1) = pat
+\* a pattern is [s |-> anchored at the start (^), e |-> anchored at the end ($), k |-> sequence of characters, "." = any
+\* character]: it matches a substring of exactly Len(k) characters, which is also the length of its capture
+MatchAt(pat, name, i) == /\ \A j \in 1..Len(pat.k) : pat.k[j] = "." \/ pat.k[j] = name[i + j - 1]
+                         /\ (pat.s => i = 1) /\ (pat.e => i + Len(pat.k) - 1 = Len(name))
+IsSub(pat, name) == /\ Len(pat.k) > 0 /\ Len(pat.k) <= Len(name)
+                    /\ \E i \in 1..(Len(name) - Len(pat.k) + 1) : MatchAt(pat, name, i)
+PLen(key) == Len(key.k)
 
 \* exact name: the first element of that name; else among the patterns that match, the longest (ties: any of them;
 \* two elements with the same pattern text: the last one replaces the first)
@@ -28,7 +33,7 @@ Lookup(elts, name) ==
       eff == {i \in DOMAIN elts : elts[i].pat /\ ~\E j \in DOMAIN elts : j > i /\ elts[j].pat /\ elts[j].key = elts[i].key}
       m == {i \in eff : IsSub(elts[i].key, name)}
   IN IF exact # {} THEN {<<CHOOSE i \in exact : \A j \in exact : i <= j, FALSE>>}
-     ELSE {<<i, TRUE>> : i \in {x \in m : \A y \in m : Len(elts[x].key) >= Len(elts[y].key)}}
+     ELSE {<<i, TRUE>> : i \in {x \in m : \A y \in m : PLen(elts[x].key) >= PLen(elts[y].key)}}
 
 \* --- identifiers -------------------------------------------------------------------------------------------------
 RECURSIVE Expand(_, _, _)
